@@ -137,8 +137,9 @@ static void run_toon(bool thorough, int slice, int nslices, int only_oi = -1, lo
     out().viol_cap = 1000000;
     TreeEnum te; te.ordered_objects = false;
     te.keys = {"a", "a b", "", "-", "1", "a:b", "a,b", "[", "\xc3\xa9"};
-    te.leaves = {MV::null(), MV::boolean(true), MV::uint64(1), MV::dbl(-1.5)};
-    for (auto s : {"", "a", " a", "a ", "1", "-1", "1.5", "1e5", "05", "true", "null", "-", "a,b", "a:b", "a|b", "\"", "\\", "\n", "\t", "\x01", "- x", "[1]"}) te.leaves.push_back(MV::str(s));
+    te.leaves = {MV::null(), MV::boolean(true), MV::uint64(1), MV::dbl(-1.5), MV::dbl(0.5), MV::dbl(-0.25), MV::dbl(1e-7), MV::dbl(1e21), MV::int64(-7)};
+    for (auto s : {"", "a", " a", "a ", "1", "-1", "1.5", "1e5", "05", "true", "null", "-", "a,b", "a:b", "a|b", "\"", "\\", "\n", "\t", "\x01", "- x", "[1]",
+                   "0.5", "1e+5", "1E-5", "2024-01-02", "1.", ".5", "1e", "-0", "0x1", "+1", "1-2", "00", "0.", "-"}) te.leaves.push_back(MV::str(s));
     int N = thorough ? 4 : 3;
     auto vals = te.upto(N);
     // plus: deeper shapes over a reduced alphabet
